@@ -31,6 +31,11 @@ Record obs := mkObs {
   ob_trace : list (nat * nat)
 }.
 
+(* the same result with another trace (the harness writes entries whose result repeats the unlimited one this way,
+   to keep the case terms small; the comparison itself is made by [same_result] in Coq) *)
+Definition with_trace (o : obs) (tr : list (nat * nat)) : obs :=
+  mkObs (ob_status o) (ob_msg o) (ob_iters o) (ob_trees o) (ob_routes o) (ob_digest o) tr.
+
 (* one sweep entry: the termination model and the clock script played to it *)
 Definition entry := (TM.term * list N)%type.
 
@@ -86,67 +91,111 @@ Definition prefixb (p s : string) : bool := String.eqb p (substring 0 (String.le
 Definition term_prefix : string := "terminated: ".
 Definition strip_term (c : string) : string := substring 12 (String.length c - 12) c.
 
+(* ---- one pass over the loop that yields both the search result and the counters of every limit test.
+        Proofs/TerminationRunSpec.v: the first component IS Search.run_vertex_oriented, the second IS
+        map TM.counters (TM.run_states ..) of the same run. ---- *)
+Section Traced.
+  Context {C St : Type}.
+  Variable clt : C -> C -> bool.
+  Variable cadd : C -> C -> C.
+  Variable czero : C.
+  Variable cfloor : C -> C.
+  Variable g : graph.
+  Variable frontier : nat -> St -> option nat -> res bool.
+  Variable traverse : dir -> nat -> option nat -> St -> res (C * C * St).
+  Variable estimate : nat -> nat -> St -> res C.
+  Variable init_state : res St.
+  Variable terminate : nat -> nat -> option string.
+
+  Fixpoint loop_traced (fuel : nat) (d : dir) (source : nat) (target : option nat) (init : St)
+           (s : sstate C St) (acc : list (nat * nat)) : res (sstate C St) * list (nat * nat) :=
+    match fuel with
+    | 0 => (OutOfFuel, rev acc)
+    | S f =>
+        let acc' := TM.counters s :: acc in
+        match step clt cadd czero cfloor g frontier traverse estimate terminate d source target init s with
+        | Ok (inl s') => loop_traced f d source target init s' acc'
+        | Ok (inr s') => (Ok s', rev acc')
+        | Err e => (Err e, rev acc')
+        | Panic w => (Panic w, rev acc')
+        | OutOfFuel => (OutOfFuel, rev acc')
+        end
+    end.
+
+  Definition vertex_traced (fuel : nat) (d : dir) (source : nat) (target : option nat)
+    : res (sresult C St) * list (nat * nat) :=
+    let direct := run_vertex_oriented clt cadd czero cfloor g frontier traverse estimate init_state terminate
+                    fuel d source target in
+    if negb (Nat.ltb source (nverts g)) then (direct, [])
+    else if (match target with Some t => Nat.eqb t source | None => false end) then (direct, [])
+    else match init_state with
+         | Ok init =>
+             match (match target with None => Ok czero | Some t => estimate source t init end) with
+             | Ok h0 =>
+                 let rt := loop_traced fuel d source target init (mkS [(source, h0)] {[source := czero]} ∅ 0) [] in
+                 (do s <- fst rt;
+                  match target with
+                  | None => Ok (mkR [s_tree s] [] (s_iters s))
+                  | Some t => do route <- vertex_oriented_route source t (s_tree s);
+                              Ok (mkR [s_tree s] [route] (s_iters s))
+                  end, snd rt)
+             | _ => (direct, [])
+             end
+         | _ => (direct, [])
+         end.
+End Traced.
+
 Section Run.
   Variable N : Num.
   Notation world := (SR.world N).
   Notation query := (SR.query N).
 
-  (* run_vertex_oriented under termination model t and clock ck.  A model with a zero frequency panics in the first
-     limit test, i.e. as soon as run_a_star enters its loop *)
-  Definition run_vertex (fuel : nat) (w : world) (q : query) (t : TM.term) (ck : TM.clock)
-             (d : dir) (s : nat) (tg : option nat) : res (sresult N N) :=
-    let T := if TM.wf t then TM.to_search t ck else TM.unlimited in
-    let r := run_vertex_oriented (C:=N) (St:=N) ltb add zero (SR.pos N) (SR.graph_of N w) (SR.frontier N w) (SR.traverse N w)
-               (SR.estimate N w (SR.eff_wf N q)) (Ok (SR.w_init N w)) T fuel d s tg in
-    if TM.wf t then r
-    else if negb (Nat.ltb s (SR.w_n N w)) || (match tg with Some x => Nat.eqb x s | None => false end) then r
-    else do h0 <- (match tg with None => Ok zero | Some x => SR.estimate N w (SR.eff_wf N q) s x (SR.w_init N w) end);
-         Panic "attempt to calculate the remainder with a divisor of zero".
+  (* run_vertex_oriented under termination model t and clock ck, with the counters handed to the limit test.
+     A model with a zero frequency panics in the first limit test, i.e. as soon as run_a_star enters its loop *)
+  Definition vertex_both (fuel : nat) (w : world) (q : query) (t : TM.term) (ck : TM.clock)
+             (d : dir) (s : nat) (tg : option nat) : res (sresult N N) * list (nat * nat) :=
+    if TM.wf t then
+      vertex_traced (C:=N) (St:=N) ltb add zero (SR.pos N) (SR.graph_of N w) (SR.frontier N w) (SR.traverse N w)
+        (SR.estimate N w (SR.eff_wf N q)) (Ok (SR.w_init N w)) (TM.to_search t ck) fuel d s tg
+    else
+      let r := run_vertex_oriented (C:=N) (St:=N) ltb add zero (SR.pos N) (SR.graph_of N w) (SR.frontier N w)
+                 (SR.traverse N w) (SR.estimate N w (SR.eff_wf N q)) (Ok (SR.w_init N w)) TM.unlimited fuel d s tg in
+      if negb (Nat.ltb s (SR.w_n N w)) || (match tg with Some x => Nat.eqb x s | None => false end) then (r, [])
+      else match (match tg with None => Ok zero | Some x => SR.estimate N w (SR.eff_wf N q) s x (SR.w_init N w) end) with
+           | Ok _ => (Panic "attempt to calculate the remainder with a divisor of zero", [(0, 0)])
+           | Err e => (Err e, [])
+           | Panic p => (Panic p, [])
+           | OutOfFuel => (OutOfFuel, [])
+           end.
+  Definition run_vertex fuel w q t ck d s tg : res (sresult N N) := fst (vertex_both fuel w q t ck d s tg).
+  Definition trace_vertex fuel w q t ck d s tg : list (nat * nat) := snd (vertex_both fuel w q t ck d s tg).
 
-  Definition run (fuel : nat) (w : world) (q : query) (t : TM.term) (ck : TM.clock) : res (sresult N N) :=
-    match SR.q_orient N q with
-    | SR.OVertex => run_vertex fuel w q t ck (SR.q_dir N q) (SR.q_source N q) (SR.q_target N q)
-    | SR.OEdge => run_edge_oriented (C:=N) (St:=N) zero (SR.graph_of N w) (SR.traverse N w) (Ok (SR.w_init N w))
-                    (SR.q_dir N q) (run_vertex fuel w q t ck (SR.q_dir N q)) (SR.q_source N q) (SR.q_target N q)
-    end.
-
-  (* the counters handed to the limit test during one vertex-oriented search *)
-  Definition trace_vertex (fuel : nat) (w : world) (q : query) (t : TM.term) (ck : TM.clock)
-             (d : dir) (s : nat) (tg : option nat) : list (nat * nat) :=
-    if negb (Nat.ltb s (SR.w_n N w)) || (match tg with Some x => Nat.eqb x s | None => false end) then [] else
-    match (match tg with None => Ok zero | Some x => SR.estimate N w (SR.eff_wf N q) s x (SR.w_init N w) end) with
-    | Ok h0 =>
-        if TM.wf t then
-          map (TM.counters (C:=N) (St:=N))
-              (TM.run_states (C:=N) (St:=N) ltb add zero (SR.pos N) (SR.graph_of N w) (SR.frontier N w) (SR.traverse N w)
-                 (SR.estimate N w (SR.eff_wf N q)) (TM.to_search t ck) fuel d s tg (SR.w_init N w)
-                 (mkS [(s, h0)] {[s := zero]} ∅ 0))
-        else [(0, 0)]          (* the call that panics *)
-    | _ => []
-    end.
-
-  (* ... and during a query: the edge-oriented wrapper runs at most one vertex-oriented search *)
-  Definition trace (fuel : nat) (w : world) (q : query) (t : TM.term) (ck : TM.clock) : list (nat * nat) :=
+  (* a query: the edge-oriented wrapper (search_algorithm.rs::run_edge_oriented) runs at most one vertex-oriented
+     search, from the far end of the origin edge to the near end of the destination edge *)
+  Definition query_both (fuel : nat) (w : world) (q : query) (t : TM.term) (ck : TM.clock)
+    : res (sresult N N) * list (nat * nat) :=
     let d := SR.q_dir N q in
     match SR.q_orient N q with
-    | SR.OVertex => trace_vertex fuel w q t ck d (SR.q_source N q) (SR.q_target N q)
+    | SR.OVertex => vertex_both fuel w q t ck d (SR.q_source N q) (SR.q_target N q)
     | SR.OEdge =>
-        match get_edge (SR.graph_of N w) (SR.q_source N q) with
-        | None => []
-        | Some e1 =>
-            let b1 := key_vertex d e1 in
-            match SR.q_target N q with
-            | None => trace_vertex fuel w q t ck d b1 None
-            | Some te =>
-                match get_edge (SR.graph_of N w) te with
-                | None => []
-                | Some e2 =>
-                    let a2 := term_vertex d e2 in
-                    if Nat.eqb (SR.q_source N q) te || Nat.eqb b1 a2 then []
-                    else trace_vertex fuel w q t ck d b1 (Some a2)
-                end
-            end
-        end
+        (run_edge_oriented (C:=N) (St:=N) zero (SR.graph_of N w) (SR.traverse N w) (Ok (SR.w_init N w))
+           d (run_vertex fuel w q t ck d) (SR.q_source N q) (SR.q_target N q),
+         match get_edge (SR.graph_of N w) (SR.q_source N q) with
+         | None => []
+         | Some e1 =>
+             let b1 := key_vertex d e1 in
+             match SR.q_target N q with
+             | None => trace_vertex fuel w q t ck d b1 None
+             | Some te =>
+                 match get_edge (SR.graph_of N w) te with
+                 | None => []
+                 | Some e2 =>
+                     let a2 := term_vertex d e2 in
+                     if Nat.eqb (SR.q_source N q) te || Nat.eqb b1 a2 then []
+                     else trace_vertex fuel w q t ck d b1 (Some a2)
+                 end
+             end
+         end)
     end.
 
   Definition obs_of (r : res (sresult N N)) (tr : list (nat * nat)) : obs :=
@@ -163,7 +212,8 @@ Section Run.
 
   Definition model_obs (fuel : nat) (w : world) (q : query) (e : entry) : obs :=
     let ck := TM.clock_of_script (snd e) in
-    obs_of (run fuel w q (fst e) ck) (trace fuel w q (fst e) ck).
+    let rt := query_both fuel w q (fst e) ck in
+    obs_of (fst rt) (snd rt).
 
   Definition unlimited_term : TM.term := TM.Combined [].
 
@@ -179,12 +229,14 @@ Section Run.
   Definition ksp_obs (fuel : nat) (w : world) (q : query) (s tg : nat) (e : entry) : obs :=
     let ck := TM.clock_of_script (snd e) in
     let t := fst e in
-    let f := run_vertex fuel w q t ck Forward s (Some tg) in
-    let ftr := trace_vertex fuel w q t ck Forward s (Some tg) in
+    let fb := vertex_both fuel w q t ck Forward s (Some tg) in
+    let f := fst fb in
+    let ftr := snd fb in
     match f with
     | Ok _ =>
-        let r := run_vertex fuel w q t ck Reverse tg (Some s) in
-        let rtr := trace_vertex fuel w q t ck Reverse tg (Some s) in
+        let rb := vertex_both fuel w q t ck Reverse tg (Some s) in
+        let r := fst rb in
+        let rtr := snd rb in
         match r with
         | Ok _ => mkObs "pass" "" 0 [] [] 0 (ftr ++ rtr)
         | _ => obs_of r (ftr ++ rtr)
@@ -273,13 +325,17 @@ Definition check_entry (vertex_result : bool) (maxdeg : nat) (unl : obs) (e : en
     let lastseg := List.last subs [] in
     let lastp := List.last (ob_trace o) (0, 0) in
     let fires_at p := TM.fires t ck (fst p) (snd p) in
-    if negb (forallb (consecutive_from 0) subs) then Some "counters not consecutive"
+    match (fix all (l : list (list (nat * nat))) : option string :=
+             match l with
+             | [] => None
+             | s :: r => match check_bounds t script maxdeg s with Some w => Some w | None => all r end
+             end) subs with
+    | Some why => Some why
+    | None =>
+    if existsb fires_at (init_part (ob_trace o)) then Some "limit exceeded but the search went on"
     else if negb (is_prefix (ob_trace o) (ob_trace unl)) then Some "not a prefix of the unlimited run"
-    else if existsb fires_at (init_part (ob_trace o)) then Some "limit exceeded but the search went on"
-    else match (fix all (l : list (list (nat * nat))) : option string :=
-                  match l with [] => None | s :: r => match check_bounds t script maxdeg s with Some w => Some w | None => all r end end) subs with
-         | Some why => Some why
-         | None =>
+    else if negb (forallb (consecutive_from 0) subs) then Some "limit not consulted at every iteration"
+    else
     if String.eqb (ob_status o) "terminated" then
       match ob_trace o with
       | [] => Some "terminated without a test"
@@ -299,7 +355,7 @@ Definition check_entry (vertex_result : bool) (maxdeg : nat) (unl : obs) (e : en
                            end) (TM.leaves t) then None
       else Some "returned result exceeds a limit"
     else None
-         end.
+    end.
 
 (* clause (c): success is monotone.  [stricter_b a b]: syntactically, a fires whenever b does *)
 Fixpoint stricter_b (a b : TM.term) : bool :=
